@@ -13,7 +13,7 @@ LEAN_MODEL_MODULES = ["OsmoVerif.Model.World", "OsmoVerif.Model.PyStr", "OsmoVer
 DRIVER_MODULES = ["World"]
 ASSUMPTIONS = [
     "theorems are about OsmoVerif.Model.World (hand model of transceiver.py, fake_trx.py, burst_fwd.py, trx_list.py, ctrl_if.py, ctrl_if_trx.py, data_if.py, fake_pm.py, clck_gen.send_clck_ind/start/stop, TrainingSeqGMSK.pick), Model.PyStr (str/bytes/int() semantics), Model.Trxd, Model.Hopping",
-    "tie: the real objects are driven in-process, wired by the real Application.append_trx/append_child_trx; replaced from outside: udp_link.socket (in-memory datagram log), clck_gen.threading.Thread (inert), random.randint (deterministic draw shared with the model), time.sleep; Application.__init__'s literal wiring is read with ast (harness/py/appinit.py)",
+    "tie: the real objects are driven in-process, created and wired by the REAL Application.__init__ from a command line (-R/-r/-P/-p/--trx); replaced from outside: udp_link.socket (in-memory datagram log), signal/banner/logging set-up, clck_gen.threading (the real CLCKGen._worker loop runs in lock step in its own OS thread: one iteration per tick operation), clck_gen.time (constant), random.randint (deterministic draw shared with the model), time.sleep; the constants of the wiring the model needs (FakePM ranges, child management of BTS/MS, receive sizes, indication period) are observed on a world built that way (gen/world.py), not pattern-matched in the source",
     "modelled, not verified: UDP delivery and the select loop, OS thread scheduling (clock thread vs socket thread) below the granularity of whole operations, time.sleep of FAKE_TRXC_DELAY, logging",
     "constants and tables (FakeTRX defaults, FakePM ranges, receive sizes, training sequences, str.strip()/int() character classes, TRXD bounds and tables, RNTABLE) are regenerated from the tree / interpreter on every run",
 ]
@@ -302,6 +302,8 @@ def c14_oracle(run, corr, deep, n_quick=1500, n_thorough=30000):
     for (l, lc, keep, mal), a, b in zip(pairs, ans_full, ans_clean):
         if a.startswith("cfgerr"):
             continue
+        if a.startswith("HARNESS-EXC") or b.startswith("HARNESS-EXC"):
+            raise vf.HarnessError("world harness could not observe the real objects: %s" % (a if a.startswith("HARNESS-EXC") else b)[:300])
         pa, pb = a.split(" | "), b.split(" | ")
         oa, ob = pa[0].split(" ; "), pb[0].split(" ; ")
         w = None
